@@ -412,7 +412,7 @@ func (c *Ctx) TranslateArgTypes() []core.Ob {
 					ts := mi.X.Type().String()
 					o := core.Ob{Rule: "T-ARGKIND", Key: fmt.Sprintf("%s#append%d", core.FnName(fn), n), Pos: c.P.Pos(call.Pos()), Func: core.FnName(fn), Armed: true, Status: core.OK,
 						Want: "a decoded translation argument is stored as chat.Message (the type ClearString/String dispatch on) or as a string"}
-					if !(strings.HasSuffix(ts, "/chat.Message") || ts == "string") {
+					if !(ts == core.ModPath+"/chat.Message" || ts == "string") {
 						o.Status, o.Got = core.Violated, "stored as "+ts+": the plain-text renderer's `case Message` misses it"
 					}
 					obs = append(obs, o)
@@ -686,4 +686,83 @@ func (c *Ctx) OmitEmptyTestsField() []core.Ob {
 		}
 	}
 	return []core.Ob{o}
+}
+
+
+// ------------------------------------------------------------ C10 constructor
+
+// NoRetainedParamSlices: a constructor of cipher state does not keep memory of
+// its slice parameters (append on a parameter shares the caller's backing
+// array whenever it has spare capacity).
+func (c *Ctx) NoRetainedParamSlices(pkg string) []core.Ob {
+	var obs []core.Ob
+	n := 0
+	for _, fn := range c.Funcs() {
+		if !inPkgs(fn, pkg) || fn.Parent() != nil {
+			continue
+		}
+		var sliceParams []ssa.Value
+		for _, p := range fn.Params {
+			if _, ok := p.Type().Underlying().(*types.Slice); ok {
+				sliceParams = append(sliceParams, p)
+			}
+		}
+		if len(sliceParams) == 0 {
+			continue
+		}
+		// values aliasing a slice parameter: the parameter, slices of it, append(param, ...)
+		alias := map[ssa.Value]bool{}
+		for _, p := range sliceParams {
+			alias[p] = true
+		}
+		for changed := true; changed; {
+			changed = false
+			for _, b := range fn.Blocks {
+				for _, in := range b.Instrs {
+					v, ok := in.(ssa.Value)
+					if !ok || alias[v] {
+						continue
+					}
+					switch x := in.(type) {
+					case *ssa.Slice:
+						if alias[x.X] {
+							alias[v], changed = true, true
+						}
+					case *ssa.Phi:
+						for _, e := range x.Edges {
+							if alias[e] {
+								alias[v], changed = true, true
+							}
+						}
+					case *ssa.Call:
+						if bi, ok := x.Common().Value.(*ssa.Builtin); ok && bi.Name() == "append" && alias[x.Common().Args[0]] {
+							alias[v], changed = true, true
+						}
+					case *ssa.ChangeType:
+						if alias[x.X] {
+							alias[v], changed = true, true
+						}
+					}
+				}
+			}
+		}
+		for _, b := range fn.Blocks {
+			for _, in := range b.Instrs {
+				st, ok := in.(*ssa.Store)
+				if !ok || !alias[st.Val] {
+					continue
+				}
+				if _, isField := st.Addr.(*ssa.FieldAddr); !isField {
+					continue
+				}
+				n++
+				obs = append(obs, core.Ob{Rule: "R-NOALIAS", Key: fmt.Sprintf("%s#retains-parameter%d", core.FnName(fn), n), Pos: c.P.Pos(st.Pos()), Func: core.FnName(fn), Armed: true, Status: core.Violated,
+					Want: "cipher state owns its buffers: no field is set to a slice that aliases a slice parameter (append on a parameter reuses the caller's backing array when it has spare capacity)",
+					Got:  "a struct field is set to memory shared with the caller: two streams built from the same IV slice corrupt each other"})
+			}
+		}
+	}
+	obs = append(obs, core.Ob{Rule: "R-NOALIAS", Key: pkg + ":constructors-copy-their-inputs", Armed: true, Status: core.OK,
+		Want: "constructors in " + pkg + " copy their slice parameters", Got: fmt.Sprintf("%d retained aliases", n)})
+	return obs
 }
